@@ -116,6 +116,10 @@ class SchedSpec(Spec):
         from .engines import sched
 
         world.install_seams()
+        if seed % 5 == 1:
+            from .engines import conc
+
+            return conc.ConcRun("C05", conc.make_config("C05", seed, tier), tag=tag).run()
         return sched.SchedRun(seed, tier, tag).run()
 
     def replay(self, doc, tag):
@@ -123,6 +127,10 @@ class SchedSpec(Spec):
         from .engines import sched
 
         world.install_seams()
+        if doc.get("engine") == "conc":
+            from .engines import conc
+
+            return conc.ConcRun("C05", doc["cfg"], plan=doc["plan"], tag=tag).run()
         return sched.SchedRun(doc.get("seed", 0), "thorough", tag, plan=doc["plan"]).run()
 
     def nontrivial_keys(self, res):
@@ -133,6 +141,9 @@ class SchedSpec(Spec):
         return s[0] if s else None
 
     def collect(self, agg, res):
+        if res.get("engine") == "conc":
+            agg.add_stats({"overlapping_http_request_runs": 1})
+            return
         d = res.get("depth1") or [0, 0]
         agg.add_stats({"schedules": res.get("schedules", 0), "depth1_positions_run": d[0], "depth1_positions_total": d[1]})
 
@@ -146,6 +157,10 @@ class SchedSpec(Spec):
                 "depth1_coverage": "%d of %d depth-1 pre-emption positions of the sampled operation sets" % (agg.stats.get("depth1_positions_run", 0), agg.stats.get("depth1_positions_total", 0))}
 
     def replay_doc(self, prop, v, res):
+        if res.get("engine") == "conc":
+            plan = dict(res["plan"], variants=[v["variant"]]) if v.get("variant") else res["plan"]
+            return {"engine": "conc", "prop": prop, "seed": v.get("seed"), "cfg": res["cfg"], "plan": plan, "expect": {"oracle": v["oracle"], "sig": v["sig"]},
+                    "detail": v.get("detail"), "digest": None, "minimised": False}
         plan = res["plan"]
         if v.get("schedule") is not None:
             plan = dict(plan, schedules=[v["schedule"]])
@@ -153,6 +168,8 @@ class SchedSpec(Spec):
                 "expect": {"oracle": v["oracle"], "sig": v["sig"]}, "detail": v.get("detail"), "digest": None, "minimised": True}
 
     def minimise(self, prop, v, res, farm):
+        if res.get("engine") == "conc":
+            return self.replay_doc(prop, v, res)
         want = (v["oracle"], json.dumps(v["sig"], sort_keys=True))
         plan = res["plan"]
         sc = v.get("schedule") or plan["schedules"][0]
